@@ -159,6 +159,7 @@ class Machine:
         self.viols = []
         self.seen = set()
         self.worst = 0.0
+        self.worst_by = {}
         self.labels = []
         self.step = -1
 
@@ -180,8 +181,9 @@ class Machine:
 
     def ratio(self, err, tol):
         r = err / tol
-        if np.isfinite(r):
-            self.worst = max(self.worst, r if r <= 1 else 0.0)
+        if np.isfinite(r) and r <= 1:
+            self.worst = max(self.worst, r)
+            self.worst_by[tol] = max(self.worst_by.get(tol, 0.0), r)
         return r <= 1
 
     def link(self, a, b):
